@@ -33,6 +33,10 @@ func c09Source(seed, idx uint64) (src string, optName string, opts func(sample *
 		if src == "" {
 			src = "A + B"
 		}
+		if r.Chance(1, 3) {
+			// multi-line layout with tabs: error rendering reads the source
+			src, _, _ = term.Layout(r, term.Tokenize(src), true)
+		}
 		optimize := r.Bool()
 		return src, fmt.Sprintf("Env,Optimize(%v)", optimize), func(s *envs.Env, _ *OpEnv) []expr.Option {
 			return []expr.Option{expr.Env(*s), expr.Optimize(optimize)}
